@@ -16,14 +16,16 @@ impl TypeEnv {
     pub fn for_closure(&self) -> TypeEnv {
         let mut all_visible = HashMap::new();
 
+        // outermost first: what this function captured itself, then its own scopes from the
+        // outside in, so that an inner binding hides an outer one of the same name
+        for (name, ty) in &self.captures {
+            all_visible.insert(name.clone(), ty.clone());
+        }
+
         for scope in &self.locals {
             for (name, ty) in scope {
                 all_visible.insert(name.clone(), ty.clone());
             }
-        }
-
-        for (name, ty) in &self.captures {
-            all_visible.insert(name.clone(), ty.clone());
         }
 
         TypeEnv {
